@@ -55,7 +55,15 @@ if __name__ == "__main__":
     bad = 0
     for n in names:
         o = run(n, tests="--tests" in sys.argv)
-        ok = o.get("caught") and o.get("demo_on_changed") == 1 and o.get("demo_on_unchanged") == 0
-        bad += not ok
-        print(("caught " if o.get("caught") else "MISSED ") + n, {k: v for k, v in o.items() if k.startswith(("demo_on", "check_", "error", "repo_tests"))})
+        # a change whose own demonstration passes on the changed copy no longer breaks the property on the current /repo head (a later
+        # fix: commit removed the mechanism it needed): that is not a miss, and it is reported as such
+        if o.get("caught"):
+            word = "caught " if o.get("demo_on_changed") == 1 else "caught (its demo no longer fails on the current head) "
+        elif o.get("demo_on_changed") == 0 and "error" not in o:
+            word = "NEUTRAL (neither its demo nor the check sees a difference on the current head) "
+        else:
+            word = "MISSED "
+        bad += word.startswith("MISSED") or o.get("demo_on_unchanged") != 0
+        print(word + n, {k: v for k, v in o.items() if k.startswith(("demo_on", "check_", "error", "repo_tests"))})
+    print("%d seeded changes, %d need attention" % (len(names), bad))
     sys.exit(1 if bad else 0)
